@@ -83,6 +83,18 @@ def has_nonfinite(obj, depth=0):
     return False
 
 
+def safe_oracle(mod, case, res):
+    """the property oracle; when it cannot even read the implementation's result (an exception while judging: e.g. a
+    result of another shape than every correct implementation returns) that IS a concrete failing case, not an
+    infrastructure error — on the unchanged tree this never happens (it would show as a violation at once)"""
+    try:
+        return list(mod.oracle(case, res))
+    except Exception as e:  # noqa
+        tb = traceback.format_exc().strip().split("\n")
+        return [(f"{mod.ID}:result-not-judgeable:{type(e).__name__}",
+                 f"the oracle could not read the implementation's result ({type(e).__name__}: {e}); {' | '.join(tb[-3:])[:400]}")]
+
+
 class Runner:
     def __init__(self, mod, tier, seed):
         self.mod = mod
@@ -104,7 +116,7 @@ class Runner:
         for case in cases:
             res = mod.run_impl(case)
             self.cases.append((case, res))
-            for v in mod.oracle(case, res):
+            for v in safe_oracle(mod, case, res):
                 sig, msg = v
                 self.violations.append({"sig": sig, "msg": msg, "case": case, "observed": res})
             for ft in mod.features(case, res):
@@ -115,7 +127,12 @@ class Runner:
             k = mod.nontrivial_key(case, res)
             if k is not None:
                 self.nontrivial.add(k)
-            reqs = mod.model_requests(case, res) if with_model else []
+            try:
+                reqs = mod.model_requests(case, res) if with_model else []
+            except Exception as e:  # noqa  -- the result cannot be turned into a model request: a disagreement with a concrete case
+                reqs = []
+                self.disagreements.append({"what": f"no model request could be built from the implementation's result ({type(e).__name__}: {e})",
+                                           "case": case, "observed": res, "requests": [], "model": []})
             batch.append((case, res, reqs))
         if with_model:
             lines = [r for _, _, reqs in batch for r in reqs]
@@ -125,7 +142,11 @@ class Runner:
             for case, res, reqs in batch:
                 rep = replies[pos:pos + len(reqs)]
                 pos += len(reqs)
-                for d in mod.compare(case, res, reqs, rep):
+                try:
+                    diffs = list(mod.compare(case, res, reqs, rep))
+                except Exception as e:  # noqa
+                    diffs = [f"the comparison could not read the implementation's result ({type(e).__name__}: {e})"]
+                for d in diffs:
                     self.disagreements.append({"what": d, "case": case, "observed": res, "requests": reqs,
                                                "model": rep})
 
@@ -343,7 +364,7 @@ def main_replay(path):
     mod = importlib.import_module(f"harness.props.{prop_id.lower()}")
     case = rec["case"]
     res = mod.run_impl(case)
-    vs = mod.oracle(case, res)
+    vs = safe_oracle(mod, case, res)
     print("case:", short(case, 2000))
     print("observed:", short(res, 2000))
     if vs:
